@@ -119,6 +119,12 @@ def run_case(sc):
     W.os = simnet._OsProxy(W.os, scen.KEY16)
     events = []
     escaped = None
+    import os as _os
+    saved_env = {k: _os.environ.get(k) for k in ("HTTP_PROXY", "HTTPS_PROXY")}
+    for k in saved_env:
+        _os.environ.pop(k, None)
+    for k, v in (sc.get("env") or {}).items():
+        _os.environ[k] = v
     try:
         ws = W.WebSocket(sc["url"], proxies=sc["proxies"])
         if sc.get("poke"):
@@ -144,6 +150,11 @@ def run_case(sc):
             escaped = type(e).__name__
     finally:
         S.socket, S.time, F.make_masking_key, W.os = old
+        for k, v in saved_env.items():
+            if v is None:
+                _os.environ.pop(k, None)
+            else:
+                _os.environ[k] = v
     return events, net.ops, escaped, run
 
 
@@ -153,7 +164,7 @@ def gen(rnd):
     port = rnd.choice([None, 8080, 443, 80, 9443])
     url = "%s://%s%s/feed" % ("wss" if secure else "ws", host, "" if port is None else ":%d" % port)
     tport = port if port is not None else (443 if secure else 80)
-    pshape = rnd.choice(["plain", "port", "cred", "cred_nopw", "https_proxy", "none", "empty", "other_scheme_only"])
+    pshape = rnd.choice(["plain", "port", "cred", "cred_nopw", "https_proxy", "none", "empty", "other_scheme_only", "from_env"])
     user = pw = None
     pscheme, phost, pport = "http", "proxy.test", None
     if pshape == "port":
@@ -178,13 +189,21 @@ def gen(rnd):
         proxies = {key: purl}
         if rnd.random() < 0.3:
             proxies[other] = "http://wrong.proxy.test:1"
+    env = {}
+    if pshape == "from_env":
+        # no proxies argument at all: the environment decides
+        env = {("HTTPS_PROXY" if secure else "HTTP_PROXY"): purl}
+        proxies = None
+    elif rnd.random() < 0.5:
+        # an explicit proxies argument -- also an empty one -- overrides whatever the environment says
+        env = {"HTTP_PROXY": "http://env.proxy.test:3128", "HTTPS_PROXY": "http://env.proxy.test:3128"}
     direct = pshape in ("none", "empty", "other_scheme_only")
     # the proxy's reply
     rk = rnd.choice(["200", "200", "200", "status", "status_odd", "unterminated_eof", "oversize", "oversize_lines", "empty", "oserr", "exc", "garbage", "connect_refused", "send_fault"])
     status = b"200"
     reply = b""
     script = []
-    sc = dict(url=url, proxies=proxies)
+    sc = dict(url=url, proxies=proxies, env=env)
     expect = "tunnel"
     if rk in ("200", "status"):
         if rk == "status":
@@ -347,7 +366,7 @@ def run(rep, info, model, tier, seed):
     localised = 0
     for i, sc in enumerate(scs):
         events, ops, escaped, run_ = run_case(sc)
-        rep.add_case(repr((sc["url"], sorted(sc["proxies"].items(), key=str), sc["proxy_script"], sc.get("connect_ok"), sc.get("send_fault"))))
+        rep.add_case(repr((sc["url"], sorted((sc["proxies"] or {}).items(), key=str), sorted(sc["env"].items()), sc["proxy_script"], sc.get("connect_ok"), sc.get("send_fault"))))
         rep.traces_vs_impl += 1
         res = oracle(sc, events, ops, escaped)
         if res:
@@ -393,7 +412,7 @@ def run(rep, info, model, tier, seed):
     if dis and not rep.violations:
         rep.broken("correspondence C19: model and implementation disagree on %d cases; first %r" % (dis, first))
     rep.families.append(dict(name="C19:proxy-replies", cases=n, disagreements=dis,
-                             rule="real WebsocketSession._connect/_connect_proxy against a fake socket module: proxy URL shapes (default/explicit port, credentials with/without password, https proxy, empty/None/absent entry, entry for the other scheme only) x ws/wss targets x replies (200, other statuses, unterminated+EOF, oversize, empty, socket error / exception at any recv, garbage, refused connect, failing CONNECT write) in every segmentation; all socket operations are logged and judged"))
+                             rule="real WebsocketSession._connect/_connect_proxy against a fake socket module: proxy URL shapes (default/explicit port, credentials with/without password, https proxy, empty/None/absent entry, entry for the other scheme only, no proxies argument with HTTP_PROXY/HTTPS_PROXY in the environment, an explicit -- also empty -- argument against a populated environment) x ws/wss targets x replies (200, other statuses, unterminated+EOF, oversize, empty, socket error / exception at any recv, garbage, refused connect, failing CONNECT write) in every segmentation; all socket operations are logged and judged"))
     if not proof_ok and not rep.violations:
         rep.broken("proof obligation props/C19.v no longer checks: %s" % (rep.coq_failure,))
 
